@@ -51,6 +51,9 @@ pub struct OutageCase {
     /// polls that fail while the node is away
     pub k: u8,
     pub mined: Mined,
+    /// a second outage (one failed call) starting at this successful RPC after the first one is over
+    #[serde(default)]
+    pub again: Option<u64>,
 }
 
 #[derive(Debug)]
@@ -127,6 +130,7 @@ fn execute_with(c: &OutageCase, choices: &[usize], early_timeouts: usize) -> Res
                 // failed call plus k failed reachability checks
                 e.rpc_down_failures_left = Some(1 + c.k as u64);
             }
+            e.second_outage = c.again.map(|n| (n, 1));
         }
         if let Some(i) = c.src_index {
             let base = e.src_count;
@@ -393,8 +397,8 @@ fn judge(c: &OutageCase, r: &Result_, reference: &Result_) -> Vec<(String, Strin
         v.push((
             format!("{}:{path}:{what}", if lost { "response-dropped-after-recovery" } else { "state-differs-after-recovery" }),
             format!(
-                "{} (rpc #{:?}, src #{:?}, k={}, mined {:?}): after recovery {:?} reply {:?}; fault-free {:?} reply {:?}",
-                c.name, c.rpc_index, c.src_index, c.k, c.mined, r.final_state, r.faulty_reply, reference.final_state, reference.faulty_reply
+                "{} (rpc #{:?}, again {:?}, src #{:?}, k={}, mined {:?}): after recovery {:?} reply {:?}; fault-free {:?} reply {:?}",
+                c.name, c.rpc_index, c.again, c.src_index, c.k, c.mined, r.final_state, r.faulty_reply, reference.final_state, reference.faulty_reply
             ),
         ));
     }
@@ -430,10 +434,11 @@ pub fn c12(tier: Tier) -> i32 {
     let bound = if tier == Tier::Quick { 1 } else { 2 };
     let early = if tier == Tier::Quick { 0 } else { 1 };
     let ks: Vec<u8> = if tier == Tier::Quick { vec![0, 1] } else { vec![0, 1, 2] };
+    let agains: Vec<u64> = if tier == Tier::Quick { vec![0, 1] } else { vec![0, 1, 2, 3] };
     let mut cases: Vec<OutageCase> = Vec::new();
     for (name, cfg, prefix, faulty) in prefixes() {
         // how many RPCs / block-source calls does the faulty step make when nothing fails?
-        let probe = OutageCase { name: name.clone(), cfg, prefix: prefix.clone(), faulty: faulty.clone(), rpc_index: None, src_index: None, k: 0, mined: Mined::Nothing };
+        let probe = OutageCase { name: name.clone(), cfg, prefix: prefix.clone(), faulty: faulty.clone(), rpc_index: None, src_index: None, k: 0, mined: Mined::Nothing, again: None };
         let mut w = World::new(cfg);
         w.boot().unwrap();
         for ev in prefix.iter() {
@@ -457,6 +462,13 @@ pub fn c12(tier: Tier) -> i32 {
         };
         drop(w);
         for r in 0..(r1 - r0) {
+            // the connection drops twice: again at the retried call itself, or at the call after it
+            for again in agains.iter() {
+                let mut c = probe.clone();
+                c.rpc_index = Some(r);
+                c.again = Some(*again);
+                cases.push(c);
+            }
             for k in ks.iter() {
                 for mined in [Mined::Nothing, Mined::Empty, Mined::Dispute2] {
                     let mut c = probe.clone();
@@ -515,7 +527,7 @@ pub fn c12(tier: Tier) -> i32 {
                 run.violation(&sig, detail, json!({"engine": "outage", "case": c, "choices": choices, "early_timeouts": early}), c.prefix.len() * 10 + c.k as usize);
             }
             if done % 37 == 1 {
-                run.sample(json!({"case": c.name, "faulty": format!("{:?}", c.faulty), "outage_at_rpc": c.rpc_index, "failed_source_call": c.src_index, "polls_during_outage": c.k, "mined_meanwhile": format!("{:?}", c.mined)}));
+                run.sample(json!({"case": c.name, "faulty": format!("{:?}", c.faulty), "outage_at_rpc": c.rpc_index, "second_outage_at_successful_rpc": c.again, "failed_source_call": c.src_index, "polls_during_outage": c.k, "mined_meanwhile": format!("{:?}", c.mined)}));
             }
         }
     }
@@ -529,7 +541,7 @@ pub fn c12(tier: Tier) -> i32 {
     run.set("fault_placements_explored", json!(done));
     run.set("exhaustive", json!(!timed_out));
     run.set("preemption_bound", json!(bound));
-    run.set("rule", json!("prefix histories x the step that talks to the node (block being processed: breach, two breaches, reorg re-submission, stale rebroadcast, multi-block catch-up; triggered add_appointment, accepted and refused penalty) x outage starting at every RPC of that step x k failed polls during the outage x {nothing, empty block, block with another dispute} mined meanwhile; plus every single failed block-source call of the polls. Each placement runs under the controlled scheduler (all schedules of request thread and chain-monitor thread within the pre-emption bound); 'blocked forever' = no enabled thread. evaluations = executions, distinct_nontrivial = distinct (blocked?, final state, API replies during outage) outcomes (at least the number of placements explored)"));
+    run.set("rule", json!("prefix histories x the step that talks to the node (block being processed: breach, two breaches, reorg re-submission, stale rebroadcast, multi-block catch-up; triggered add_appointment, accepted and refused penalty) x outage starting at every RPC of that step x k failed polls (request path) / failed reachability checks of the waiting carrier (block path) during the outage x {nothing, empty block, block with another dispute} mined meanwhile; plus, for every RPC, a connection that drops twice (again at the s-th successful call after the recovery, s = 0 being the retried call itself); plus every single failed block-source call of the polls. Each placement runs under the controlled scheduler (all schedules of request / chain-monitor / rest-of-the-world threads within the pre-emption bound; timers elapse at quiescence); 'blocked forever' = no enabled thread. evaluations = executions, distinct_nontrivial = distinct (blocked?, final state, API replies during outage) outcomes (at least the number of placements explored)"));
     run.assume("timers elapse only at quiescence; the chain monitor's polling timer elapses before the carrier's reachability-check timer except for the allowed early time-outs; on the block path the outage ends after a number of failed calls, on the request path when the scripted environment says so");
     run.finish()
 }
